@@ -381,14 +381,13 @@ func (db *DB) setUnpin(batch driver.Batching, item, rootItem shed.Item) (gcSizeC
 			if !errors.Is(err, driver.ErrNotFound) {
 				return 0, err
 			}
-			rootItem.AccessTimestamp = now()
-			err = db.retrievalAccessIndex.PutInBatch(batch, rootItem)
-			if err != nil {
-				return 0, err
-			}
-		} else {
-			rootItem.AccessTimestamp = i.AccessTimestamp
+			// the file has no access entry: it was never cached (its
+			// chunks were stored by upload, setPin did not take it out
+			// of the gc index either), so unpinning must not make it
+			// collectable
+			return 0, nil
 		}
+		rootItem.AccessTimestamp = i.AccessTimestamp
 
 		i, err = db.retrievalDataIndex.Get(rootItem)
 		if err != nil {
